@@ -4,6 +4,7 @@ lines of known_findings.txt and replay functions of py/props/c18.py).
 -/
 import WpModel.Props.C18
 import WpModel.Props.C18Pdf
+import WpModel.Props.C18LinkAttr
 
 namespace Wp.Witness.C18
 open Wp Wp.Anchors Wp.Outline Wp.C18
@@ -24,19 +25,17 @@ example :
     Matrix.transformPoint]
   refine ⟨?_, ?_, ?_⟩ <;> decide +kernel
 
-/-- Anchor names `z` and `aé`: `sorted(pdf_names)` orders them by code point (`aé` < `z`), but the keys
-written to the PDF are `(z)` = 7A and `<FEFF006100E9>`: in the byte order of ISO 32000-1 7.9.6 the
-array `[aé, z]` is not sorted, so a reader that looks a destination up by binary search can miss it. -/
-theorem dests_not_byte_sorted :
-    sortNames [([122], 0), ([97, 233], 1)] = [([97, 233], 1), ([122], 0)] ∧
-    ¬ StrictSorted ((sortNames [([122], 0), ([97, 233], 1)]).map (fun e => (keyBytes e.1, e.2))) := by
-  have e : sortNames [([122], 0), ([97, 233], 1)] = [([97, 233], 1), ([122], 0)] := by decide
+/-- Regression example for the repaired defect `dests-not-byte-sorted` (commit 09da5a8): anchor names
+`z` and `aé`.  `sorted(pdf_names)` used to order them by code point (`aé` < `z`) although the keys are
+written `(z)` = 7A and `<FEFF006100E9>`; `sorted(pdf_names, key=key_bytes)` puts `z` first and the
+array is sorted in the byte order of ISO 32000-1 7.9.6 (for every input: `C18.names_byte_sorted`). -/
+example :
+    sortNames [([122], 0), ([97, 233], 1)] = [([122], 0), ([97, 233], 1)] ∧
+    StrictSorted ((sortNames [([122], 0), ([97, 233], 1)]).map withKey) := by
+  have e : sortNames [([122], 0), ([97, 233], 1)] = [([122], 0), ([97, 233], 1)] := by decide
   refine ⟨e, ?_⟩
   rw [e]
-  intro h
-  have h1 : nameLt (keyBytes [97, 233]) (keyBytes [122]) = true := h.1
-  revert h1
-  decide
+  exact ⟨by decide, trivial⟩
 
 /-- `<title>a&#13;b</title>`: the ASCII string `a CR b` is written as the literal string `(a CR b)` with the
 carriage return unescaped, and an unescaped end-of-line in a literal string reads as a line feed
@@ -48,10 +47,54 @@ theorem pdf_string_cr :
     Wp.PdfStr.decode [40, 97, 13, 98, 41] = some [97, 10, 98] ∧
     Wp.PdfStr.decode [40, 24, 41] = some [728] := ⟨rfl, by decide, by decide⟩
 
-/-- Attachments `b.txt` then `a.txt`: the `/EmbeddedFiles` name array lists the keys in document order,
-`(b.txt)` before `(a.txt)` — not the sorted order ISO 32000-1 7.9.6 requires of a name tree. -/
-theorem embedded_files_not_sorted :
-    (Wp.Attach.embeddedFiles [] 10
+/-- Regression example for the repaired defect `embedded-files-not-sorted` (commit 186e86a):
+attachments `b.txt` then `a.txt` are listed `(a.txt)`, `(b.txt)` in the `/EmbeddedFiles` name array. -/
+example :
+    (Wp.Attach.embeddedFiles (fun s => s.toList.map Char.toNat) [] 10
       [⟨some 1, some "b.txt", none, none⟩, ⟨some 1, some "a.txt", none, none⟩]).2.1 =
-      some ⟨14, [("b.txt", 11), ("a.txt", 13)]⟩ ∧
-    nameLt ("b.txt".toList.map Char.toNat) ("a.txt".toList.map Char.toNat) = false := ⟨by decide, by decide⟩
+      some ⟨14, [("a.txt", 13), ("b.txt", 11)]⟩ := by decide
+
+/-- The repair sorts by the *written form* of the keys (`pydyf.String.data`: parentheses around, `\ ( )`
+escaped), not by their bytes.  Attachments `report` and `report 2`: the written forms are `(report)` and
+`(report 2)`, and `)` (0x29) sorts after the space (0x20), so the array lists `report 2` before `report` —
+but the key `report` is a proper prefix of `report 2` and ISO 32000-1 7.9.6 wants it first.  The same
+happens for a name followed by `!`, `#`, `$`, `%`, `&`, `'`, and for `(`, `)`, which sort as `\`
+(`a(1)` after `aZ`). -/
+theorem embedded_files_written_form_order :
+    let cpsOf := fun (s : String) => s.toList.map Char.toNat
+    (Wp.Attach.embeddedFiles cpsOf [] 10
+      [⟨some 1, some "report", none, none⟩, ⟨some 1, some "report 2", none, none⟩]).2.1 =
+      some ⟨14, [("report 2", 13), ("report", 11)]⟩ ∧
+    nameLt (Wp.Attach.fKey (cpsOf "report")) (Wp.Attach.fKey (cpsOf "report 2")) = true ∧
+    ¬ SortedBy (rawKey cpsOf) (Wp.Attach.sortSpecs cpsOf
+        [⟨10, 11, "report", "", 1, ""⟩, ⟨12, 13, "report 2", "", 1, ""⟩]) := by
+  refine ⟨by decide, by decide, ?_⟩
+  have e : Wp.Attach.sortSpecs (fun (s : String) => s.toList.map Char.toNat)
+      [⟨10, 11, "report", "", 1, ""⟩, ⟨12, 13, "report 2", "", 1, ""⟩] =
+      [⟨12, 13, "report 2", "", 1, ""⟩, ⟨10, 11, "report", "", 1, ""⟩] := by decide
+  intro h
+  rw [e] at h
+  have h1 := h.1
+  revert h1
+  decide
+
+/-- Two attachments with one name (`a.txt` twice) give two equal keys in the `/EmbeddedFiles` name tree:
+a reader that looks a file up by name finds only one of them. -/
+theorem embedded_files_duplicate_keys :
+    (Wp.Attach.embeddedFiles (fun s => s.toList.map Char.toNat) [] 10
+      [⟨some 1, some "a.txt", none, none⟩, ⟨some 2, some "a.txt", none, none⟩]).2.1 =
+      some ⟨14, [("a.txt", 11), ("a.txt", 13)]⟩ := by decide
+
+/-- `<a id=x name=y>target</a> <a href="#x">link</a>`: the element carries the id `x`, but the UA rule
+`a[name] { -weasy-anchor: attr(name) }` overrides `[id] { -weasy-anchor: attr(id) }`, so the only
+destination of the document is `y`; the link to `#x` has no destination (`resolve_links` logs
+`No anchor #x` and drops it).  With `name=""` the element gets no destination at all. -/
+theorem anchor_id_shadowed_by_name :
+    let target : Wp.LinkAttr.El := { tag := "a", id := some "x".toList, name := some "y".toList }
+    let link : Wp.LinkAttr.El := { tag := "a", href := some "#x".toList }
+    Wp.LinkAttr.documentLinks [(0, target), (1, link)] none = ([(1, "internal", "x".toList)], ["y".toList]) ∧
+    Wp.LinkAttr.anchorOf { tag := "a", id := some "x".toList, name := some [] } = none ∧
+    resolveLinks [⟨[⟨"y", 0, 0⟩], [⟨"internal", "x", 0⟩]⟩] = [([], [⟨"y", 0, 0⟩])] := by
+  refine ⟨by decide +kernel, by decide, by decide⟩
+
+end Wp.Witness.C18
